@@ -105,6 +105,28 @@ AltIdOnly(srcRecs, backRecs) ==
       isAltId(r) == r.k = "alternate" /\ r.id # NONE
   IN /\ \A r \in U \ B : isAltId(r)
      /\ \A r \in B \ U : isAltId(r) /\ \E q \in U \ B : q.id = r.id
+(* KF-C07-pairing: a subject carries a PLAIN anonymous relation (two arguments, nothing else) and *)
+(* an anonymous relation of the same kind with optional arguments or attributes; the reader      *)
+(* pairs the plain triple with the qualified node and the plain relation does not come back.      *)
+PlainAnon(r) == r.id = NONE /\ r.k \notin Elements /\ Len(Formals[r.k]) >= 2 /\
+                {x.a : x \in r.attrs} = {ProvU(Formals[r.k][1]), ProvU(Formals[r.k][2])}
+Subject(r) == RefOf(r, Formals[r.k][1])
+MixedSubject(U, k, sub) ==        \* the source has a plain AND a qualified anonymous relation of kind k on sub
+  /\ \E r \in U : r.k = k /\ PlainAnon(r) /\ Subject(r) = sub
+  /\ \E q \in U : q.k = k /\ q.id = NONE /\ q.k \notin Elements /\ ~PlainAnon(q) /\ Subject(q) = sub
+PairingOnly(srcRecs, backRecs) ==
+  LET U == USet(srcRecs)
+      B == SeqToSet(ContentSeq(backRecs))
+  IN \A r \in (U \ B) \cup (B \ U) :
+        r.id = NONE /\ r.k \notin Elements /\ Len(Formals[r.k]) >= 2 /\ MixedSubject(U, r.k, Subject(r))
+KF_C07_pairing(step) ==
+  IF /\ step.exc = "none"
+     /\ PairingOnly(step.src.recs, step.back.recs)
+     /\ Len(step.src.bundles) = Len(step.back.bundles)
+     /\ \A i \in 1..Len(step.src.bundles) : \E j \in 1..Len(step.back.bundles) :
+           step.src.bundles[i].id = step.back.bundles[j].id
+           /\ PairingOnly(step.src.bundles[i].recs, step.back.bundles[j].recs)
+  THEN "KF-C07-pairing" ELSE ""
 KF_C07(step) ==
   IF /\ step.exc = "none"
      /\ AltIdOnly(step.src.recs, step.back.recs)
@@ -144,7 +166,8 @@ KnownFinding(step, c) ==
          LET changed == {h \in DOMAIN step.pre.con : ~SameCon(step, h)} IN
          IF changed # {} /\ \A h \in changed : InheritedNsOnly(step, h) /\ UnifiesDup(step, h)
          THEN "KF-unified-registers" ELSE ""
-    [] c = "C07_rt" -> KF_C07(step)
+    [] c = "C07_rt" -> IF KF_C07(step) # "" THEN KF_C07(step) ELSE KF_C07_pairing(step)
+    [] c = "C07_one" -> IF KF_C07(step) # "" THEN KF_C07(step) ELSE KF_C07_pairing(step)
     [] c = "C11_cross" -> KF_C11_cross(step)
     [] c = "C06_grammar" -> KF_C06_grammar(step)
     [] c = "C06_denotes" -> IF ShadowExplains(step.src, SpecReadProvN(step.ast)) THEN "KF-C03-shadow" ELSE ""
